@@ -113,7 +113,7 @@ def main():
     sh("git checkout -- . && git clean -fdq", cwd=WT)
     print(json.dumps(report, indent=1))
     # file it
-    dst = os.path.join("/verif/seeded", sid)
+    dst = os.path.join("/verif/seeded", os.environ.get("SEED_PREFIX", "") + sid)
     os.makedirs(dst, exist_ok=True)
     for f in os.listdir(d):
         if os.path.isfile(os.path.join(d, f)):
